@@ -60,6 +60,8 @@ def run(chk, tier):
         B.quantify_arith(chk, F, 'R03.4', cfg)
         B.api_table(chk, F, 'R03.4', cfg)
         into_counter(chk, F, 'R03.4', cfg)
+        from props import ctor
+        ctor.builder_constructors(chk, F, 'R03.4.ctor', cfg)
 
 
 def counter_verify(chk, F, rule, cfg):
